@@ -188,10 +188,23 @@ def make_case(rng):
                 h.lines = new
             secs.append(s)
         d = gen.Diff(secs)
-        rl = d.role_lines()
-        lines = [l for _, l in rl]
-        roles = [r for r, _ in rl]
         kind = 'unified-diff'
+        if all(s_.kind == 'modified' for s_ in secs) and rng.random() < 0.25:
+            # diff -u output, its empty unchanged lines without their blank: unchanged lines like the others - what came
+            # before them is out when they have been read
+            for s_ in secs:
+                for h in s_.hunks:
+                    new = []
+                    for k_, t_ in h.lines:
+                        new.append((k_, t_))
+                        if k_ in '-+' and rng.random() < 0.3:
+                            new.append((' ', ''))
+                    h.lines = new + [(' ', 'last line of the hunk')]
+            d = gen.Diff(secs, fmt='plain')
+            kind = 'plain-diff-stripped-blanks'
+        rl = d.role_lines()
+        lines = [('' if (kind == 'plain-diff-stripped-blanks' and r == 'hunk' and l == ' ') else l) for r, l in rl]
+        roles = [r for r, _ in rl]
         tagged = True
         opts = gen.tagged_styles()
         opts.update({'--paging': 'never', '--line-buffer-size': buf, '--syntax-theme': 'none'})
@@ -274,7 +287,7 @@ def run_item(item):
         if role == 'hunk':
             hunk_lines += 1
             first = lines[k][:1] if kind != 'combined' else ('+' if '+' in lines[k][:2] else ('-' if '-' in lines[k][:2] else ' '))
-            if first in '+-':
+            if first and first in '+-':
                 open_run += 1
             else:
                 open_run = 0
@@ -293,6 +306,16 @@ def run_item(item):
             return outs
         # (a2) only the open run is held back: everything delta writes for the input before the open run (file header,
         # hunk header, earlier lines) is on stdout by now
+        if role == 'hunkheader' and k > 0 and roles[k - 1] == 'hunk':
+            # (a3) the header of the next hunk closes the run the previous hunk ended with: what delta writes for the input
+            # before this header line is out (the header itself is written with the first line of its hunk)
+            base = runner.run_delta(args, b'\n'.join(blines[:k]) + b'\n', env=extra_env)
+            if crashmod.classify(base) is None and base.rc == 0 and len(written) < len(base.out) and base.out.startswith(written):
+                outs.append(violated('c11:held-back-past-hunk-end', 'after the header line of the next hunk (input line %d) only %d of the %d bytes that delta writes for '
+                                     'the input before it are out: the last changed lines of the previous hunk are still held back'
+                                     % (k + 1, len(written), len(base.out)), len(base.out), len(written), run=whole, sets=sets, counters=counters))
+                return outs
+            counters['hunk_end_points'] = 1
         if role == 'hunk':
             base = alone if open_run == 0 else runner.run_delta(args, b'\n'.join(blines[:k + 1 - open_run]) + b'\n', env=extra_env)
             if crashmod.classify(base) is None and base.rc == 0 and len(written) < len(base.out) and base.out.startswith(written):
